@@ -217,7 +217,7 @@ def gen_case(prop, seed, p_fault=0.6):
         pspace, prows = gen_prows(r, pspace)
         entry = gen_entry(r, rng, dom, [tuple(p) for p in pspace], prows)
         fault = gen_fault(r, seed, p_fault)
-        if entry.get("cls", "").startswith("Adaptive") and entry.get("calls", 1) > 1 and prows:
+        if prop in ("C01", "C02") and entry.get("cls", "").startswith("Adaptive") and entry.get("calls", 1) > 1 and prows:
             # histories whose rounds are called with different parameter rows: rotations of
             # the same rows (filters and means were validated at exactly these rows)
             r2 = rnd(seed, "adaptive-params")
